@@ -53,14 +53,30 @@ def _c03():
 
 # ------------------------------------------------------------------ text forms
 
+class LP(list):
+    """a log pass: frame types in FRAME-set order, each with its channels in the order the Frame lists them; `defs` is
+    the CHANNEL set: the channel objects in DEFINITION order (any order, may contain channels no frame uses)"""
+    defs = None
+    defs_order = 'frame-order'
+
+
+def lp_defs(lp):
+    d = getattr(lp, 'defs', None)
+    return d if d is not None else [ch for ft in lp for ch in ft['chans']]
+
+
 def lp_txt(lp):
+    """CHANNEL set objects in definition order, then the FRAME objects listing their channels by name: the model picks
+    the channels by name in the Frame's order (`buildLogPass`)"""
     c03 = _c03()
-    parts = [str(len(lp))]
+    defs = lp_defs(lp)
+    parts = [str(len(defs))]
+    for ch in defs:
+        parts += [c03.hx(ch['ident']), str(ch['rc']), str(len(ch['dims']))] + [str(d) for d in ch['dims']]
+    parts.append(str(len(lp)))
     for ft in lp:
         o, c, i = ft['name']
-        parts += [str(o), str(c), c03.hx(i), str(len(ft['chans']))]
-        for ch in ft['chans']:
-            parts += [c03.hx(ch['ident']), str(ch['rc']), str(len(ch['dims']))] + [str(d) for d in ch['dims']]
+        parts += [str(o), str(c), c03.hx(i), str(len(ft['chans']))] + [c03.hx(ch['ident']) for ch in ft['chans']]
     return ' '.join(parts)
 
 
@@ -160,6 +176,32 @@ def gen_logpass(rng):
             used.add(ident)
             chans.append({'ident': ident, 'rc': rng.choice(NUMERIC), 'dims': [1] if j == 0 else rng.choice(DIMS)})
         lp.append({'name': [rng.choice([0, 1, 2, 300]), rng.randint(0, 2), b'FR%d' % k], 'chans': chans})
+    # FRAME objects in any order relative to the frame records (frames refer to them by their index in this list)
+    rng.shuffle(lp)
+    lp = LP(lp)
+    # the CHANNEL set defines its objects independently of the order in which the Frames list them
+    defs = [ch for ft in lp for ch in ft['chans']]
+    for _ in range(rng.choice([0, 0, 1, 2])):            # channels defined but used by no frame
+        while True:
+            ident = bytes(rng.choice(b'ABCDEFGHXYZ0123456789_') for _ in range(rng.randint(1, 5)))
+            if ident not in used: break
+        used.add(ident)
+        defs.insert(rng.randint(0, len(defs)), {'ident': ident, 'rc': rng.choice(NUMERIC), 'dims': rng.choice(DIMS)})
+    mode = rng.choice(['frame-order', 'reversed', 'sorted', 'sorted-desc', 'shuffled', 'shuffled', 'index-last', 'interleaved'])
+    if mode == 'reversed': defs.reverse()
+    elif mode == 'sorted': defs.sort(key=lambda c: c['ident'])
+    elif mode == 'sorted-desc': defs.sort(key=lambda c: c['ident'], reverse=True)
+    elif mode == 'shuffled': rng.shuffle(defs)
+    elif mode == 'index-last':
+        firsts = [ft['chans'][0] for ft in lp]
+        defs = [c for c in defs if not any(c is f for f in firsts)] + firsts
+    elif mode == 'interleaved':
+        cols = [list(ft['chans']) for ft in lp] + [[c for c in defs if not any(c is x for ft in lp for x in ft['chans'])]]
+        defs = []
+        while any(cols):
+            for col in cols:
+                if col: defs.append(col.pop(rng.randrange(len(col)) if rng.random() < 0.5 else 0))
+    lp.defs, lp.defs_order = defs, mode
     return lp
 
 
@@ -337,6 +379,7 @@ def run_case(ctx, mods, lp, frames, recs, calls_by_ft, model_index, model_pop, r
     case = {'lp': [{'name': [ft['name'][0], ft['name'][1], ft['name'][2].hex()],
                     'chans': [{'ident': c['ident'].hex(), 'rc': c['rc'], 'dims': c['dims']} for c in ft['chans']]} for ft in lp],
             'frames': frames, 'recs': [[e, x, ty, b.hex()] for e, x, ty, b in recs],
+            'defs': [{'ident': c['ident'].hex(), 'rc': c['rc'], 'dims': c['dims']} for c in lp_defs(lp)],
             'calls': {str(k): [[s, None if c is None else [i.hex() for i in c]] for s, c in v] for k, v in calls_by_ft.items()},
             'order': order, 'hist': hist}
     li, data = impl_open(mods, recs, ctx.rng if record else None)
@@ -372,7 +415,7 @@ def run_case(ctx, mods, lp, frames, recs, calls_by_ft, model_index, model_pop, r
           got = [[(ch.ident, ch.rep_code, list(ch.dimensions)) for ch in fa.channels] for fa in lf.log_pass.frame_arrays]
           want = [[(c['ident'].decode('ascii'), c['rc'], c['dims']) for c in ft['chans']] for ft in lp]
           if got != want:
-              fails.append(f'log pass structure {got} != generated {want}')
+              fails.append(f'frame array channels (ident, code, dimensions) {got} != the channels each Frame lists, in that order: {want}'[:700])
           # index: frame count, X and frame number
           itxt = impl_index_txt(mods, li, lf)
           if model_index is not None:
@@ -469,6 +512,10 @@ def run(ctx):
         all_orders.append(order); all_hists.append('reenter' if rng.random() < 0.3 else 'once')
         all_calls.append(calls)
         for k in range(len(lp)): ctx.count('frame_types')
+        ctx.count('channel_set_order_' + lp.defs_order)
+        if [c['ident'] for c in lp_defs(lp) if any(c is x for ft in lp for x in ft['chans'])] != [c['ident'] for ft in lp for c in ft['chans']]:
+            ctx.count('channel_set_order_differs_from_frame_listing')
+        if len(lp_defs(lp)) > sum(len(ft['chans']) for ft in lp): ctx.count('channel_set_with_unused_channels')
         ctx.count('channels', sum(len(ft['chans']) for ft in lp))
         for ft in lp:
             for ch in ft['chans']:
@@ -499,6 +546,9 @@ def replay(ctx, rec):
         return True, 'nothing to replay (no concrete failing input was recorded)'
     lp = [{'name': [ft['name'][0], ft['name'][1], bytes.fromhex(ft['name'][2])],
            'chans': [{'ident': bytes.fromhex(c['ident']), 'rc': c['rc'], 'dims': c['dims']} for c in ft['chans']]} for ft in case['lp']]
+    lp = LP(lp)
+    if case.get('defs') is not None:
+        lp.defs = [{'ident': bytes.fromhex(c['ident']), 'rc': c['rc'], 'dims': c['dims']} for c in case['defs']]
     recs = [(e, x, ty, bytes.fromhex(b)) for e, x, ty, b in case['recs']]
     calls = {int(k): [(s, None if c is None else [bytes.fromhex(i) for i in c]) for s, c in v] for k, v in case['calls'].items()}
     fails = run_case(ctx, mods, lp, case['frames'], recs, calls, None, None, record=False, order=case.get('order'), hist=case.get('hist', 'once'))
